@@ -267,12 +267,15 @@ func ruleNodeLayer(c *Ctx) {
 					return true
 				}
 				be, ok := ast.Unparen(ifs.Cond).(*ast.BinaryExpr)
-				if !ok || be.Op != token.LSS {
+				if !ok || (be.Op != token.LSS && be.Op != token.LEQ) {
 					return true
 				}
 				if sel, ok := ast.Unparen(be.X).(*ast.SelectorExpr); ok && sel.Sel.Name == "childrenLen" {
 					if tv, has := info.Types[be.Y]; has && tv.Value != nil {
 						t.grow, _ = constant.Int64Val(tv.Value)
+						if be.Op == token.LEQ {
+							t.grow++ // childrenLen <= C accepts children while childrenLen < C+1
+						}
 						key := k.Struct.Obj().Name() + ".addChild capacity guard equals len(children)"
 						if t.grow == k.Cap {
 							c.r.ok("R22", key, m.pos(be.Pos()), fmt.Sprintf("childrenLen < %d", t.grow), "C11", "C10")
@@ -283,6 +286,9 @@ func ruleNodeLayer(c *Ctx) {
 				}
 				return true
 			})
+		}
+		if t.grow == -1 && k.Cap < 256 && m.ByName[k.Struct.Obj().Name()+".addChild"] != nil {
+			c.r.undecided("R22", k.Struct.Obj().Name()+".addChild capacity guard equals len(children)", m.pos(m.ByName[k.Struct.Obj().Name()+".addChild"].Decl.Pos()), "no guard of the form childrenLen < C found before a child is stored", "C11", "C10")
 		}
 		if du := m.ByName[k.Struct.Obj().Name()+".deleteChild"]; du != nil {
 			ast.Inspect(du.Body, func(n ast.Node) bool {
@@ -336,6 +342,106 @@ func ruleNodeLayer(c *Ctx) {
 		}
 	}
 	c.r.floor("R22", 3, "capacity constants", "C11")
+
+	// ------------------------------------------------------------------ R37 SLOTALLOC
+	// a size class whose deleteChild leaves holes (slot.pointer = nil, no compaction) must not
+	// allocate the next slot densely at childrenLen
+	for _, k := range m.Kinds {
+		du := m.ByName[k.Struct.Obj().Name()+".deleteChild"]
+		au := m.ByName[k.Struct.Obj().Name()+".addChild"]
+		if du == nil || au == nil {
+			continue
+		}
+		holes, compacts := false, false
+		ast.Inspect(du.Body, func(n ast.Node) bool {
+			switch x := n.(type) {
+			case *ast.AssignStmt:
+				if len(x.Lhs) == 1 && len(x.Rhs) == 1 && info.Types[x.Rhs[0]].IsNil() {
+					if sel, ok := ast.Unparen(x.Lhs[0]).(*ast.SelectorExpr); ok && sel.Sel.Name == "pointer" {
+						holes = true
+					}
+				}
+			case *ast.CallExpr:
+				if isBuiltinCall(info, x, "copy") && len(x.Args) == 2 {
+					if strings.Contains(types.ExprString(x.Args[0]), "children") && strings.Contains(types.ExprString(x.Args[1]), "children") {
+						compacts = true
+					}
+				}
+			}
+			return true
+		})
+		// slot expression of the store of the new child
+		var childParam *types.Var
+		for _, f := range au.Decl.Type.Params.List {
+			for _, nm := range f.Names {
+				if v, _ := info.Defs[nm].(*types.Var); v != nil && c.isNodeRefType(v.Type()) {
+					if _, isPtr := v.Type().(*types.Pointer); !isPtr {
+						childParam = v
+					}
+				}
+			}
+		}
+		slotKind, slotPos := "", au.Decl.Pos()
+		scansFree := false
+		ast.Inspect(au.Body, func(n ast.Node) bool {
+			if f, ok := n.(*ast.ForStmt); ok && f.Cond != nil {
+				if strings.Contains(types.ExprString(f.Cond), ".pointer") && strings.Contains(types.ExprString(f.Cond), "children") {
+					scansFree = true
+				}
+			}
+			as, ok := n.(*ast.AssignStmt)
+			if !ok || len(as.Lhs) != 1 || len(as.Rhs) != 1 || identVar(info, as.Rhs[0]) != childParam || childParam == nil {
+				return true
+			}
+			ie, ok := ast.Unparen(as.Lhs[0]).(*ast.IndexExpr)
+			if !ok || !strings.HasSuffix(types.ExprString(ie.X), "children") {
+				return true
+			}
+			slotPos = as.Pos()
+			iv := identVar(info, ie.Index)
+			switch {
+			case iv != nil && c.enclosingParam(au, iv):
+				slotKind = "byte-indexed"
+			case iv != nil:
+				dense := false
+				ast.Inspect(au.Body, func(z ast.Node) bool {
+					if as2, ok := z.(*ast.AssignStmt); ok {
+						for i, l := range as2.Lhs {
+							if identVar(info, l) == iv && i < len(as2.Rhs) && strings.Contains(types.ExprString(as2.Rhs[i]), "childrenLen") {
+								dense = true
+							}
+						}
+					}
+					return true
+				})
+				if dense {
+					slotKind = "dense"
+				} else {
+					slotKind = "computed"
+				}
+			default:
+				if strings.Contains(types.ExprString(ie.Index), "childrenLen") {
+					slotKind = "dense"
+				} else {
+					slotKind = "computed"
+				}
+			}
+			return true
+		})
+		key := k.Struct.Obj().Name() + " slot allocation agrees with how deleteChild vacates slots"
+		switch {
+		case slotKind == "":
+			c.r.undecided("R37", key, m.pos(au.Decl.Pos()), "store of the new child not recognised", "C10", "C01", "C02", "C11")
+		case holes && !compacts && slotKind == "dense" && !scansFree:
+			c.r.bad("R37", key, m.pos(slotPos), "deleteChild frees a slot in place (pointer = nil, no compaction) but addChild takes slot childrenLen as the next free one: after a delete of a child that is not in the last slot that slot is still occupied and the new child overwrites a live one", "C10", "C01", "C02", "C11")
+		case holes && !compacts && slotKind == "dense" && scansFree:
+			c.r.ok("R37", key, m.pos(slotPos), "holes are left by deleteChild and addChild scans for a free slot", "C10", "C01", "C02", "C11")
+		case holes && !compacts:
+			c.r.ok("R37", key, m.pos(slotPos), "holes are left by deleteChild; addChild picks the slot by "+slotKind+" index (free-slot scan="+fmt.Sprint(scansFree)+")", "C10", "C01", "C02", "C11")
+		default:
+			c.r.ok("R37", key, m.pos(slotPos), "deleteChild compacts the arrays, so the occupied slots are dense and slot childrenLen is free", "C10", "C01", "C02", "C11")
+		}
+	}
 
 	// ------------------------------------------------------------------ R23 NODEWRITERS + R25 TREESTATE
 	treeStruct := map[*types.TypeName]*TreeKind{}
